@@ -23,6 +23,7 @@ type Op struct {
 	SvcNT   int32  `json:"svc_nt,omitempty"`   // name-type of the service name as presented (0 = 1; not significant, RFC 4120 6.2)
 	Alt     bool   `json:"alt,omitempty"`      // presented through the process's second settings object (other clock skew)
 	ZoneMin int    `json:"zone_min,omitempty"` // the client time is encoded with this zone offset (minutes) instead of Z: same instant
+	Kvno    int    `json:"kvno,omitempty"`     // path=verify: key version of the service key the ticket is sealed under (0 = 2; 1 = the older key, as a ticket issued before the key change)
 	Relabel string `json:"relabel,omitempty"`  // path=verify: the clear-text sname of the ticket is rewritten to HTTP/<this>; applied when the key found is the same (settings overriding the keytab principal, or the alias a<n> of the account of s<n>)
 }
 
@@ -70,7 +71,7 @@ func Meta() core.Meta {
 		Engine: "c02", Property: "C02", Level: "exploration",
 		Rule:        "case = one seeded run: 1-3 presenter tasks (1-8 presentations each over clients{a,b,a/admin,a/admin as one component,a@other realm} x client times{t0,+1us,+1s,late,early; encoded with Z or a zone offset} x services{s1,s2} x service name-type{1,2,3} x rewritten clear-text ticket sname x 1-2 settings objects with different clock skews sharing the process's cache, the second one known to the cache from its first verification on) plus the library's clean-up goroutine, interleaved by the seeded fake-time scheduler at every lock boundary of service/cache.go; distinct = distinct (shape, path, skew, interleaving hash of the ordered (task, lock site) sequence, outcome vector); non-trivial = at least two presentations of one identity inside the skew window, or a context switch inside a cache operation",
 		SeededQuick: 20000, SeededThorough: 600000,
-		WorkloadProbes: []string{"same-identity-overlap", "late-window", "cleaner-between", "cross-service", "sequential-replay", "presentation-overlaps-cleanup", "replay-under-other-name-type", "replay-through-other-settings", "replay-under-other-zone-encoding", "replay-with-rewritten-sname", "longer-skew-first-used-after-shorter-skew-elapsed", "window-closes-during-presentation"},
+		WorkloadProbes: []string{"same-identity-overlap", "late-window", "cleaner-between", "cross-service", "sequential-replay", "presentation-overlaps-cleanup", "replay-under-other-name-type", "replay-through-other-settings", "replay-under-other-zone-encoding", "replay-with-rewritten-sname", "replay-with-ticket-under-other-service-key", "longer-skew-first-used-after-shorter-skew-elapsed", "window-closes-during-presentation"},
 		Components: map[string]string{
 			"service.Cache (IsReplay, AddEntry, getClientEntry, ClearOldEntries) + GetReplayCache clean-up goroutine": "real",
 			"service.VerifyAPREQ, messages.APReq.Verify, keytab, crypto (path=verify)":                                "real",
@@ -286,6 +287,9 @@ func Gen(caseID, tier string) (json.RawMessage, error) {
 			if o.Relabel == "" && tp.Path == "verify" && r.Chance(1, 8) {
 				// the ticket names another service principal name of the same account (same key)
 				o.Relabel = "a" + o.Svc[1:]
+			}
+			if tp.Path == "verify" && r.Chance(1, 5) {
+				o.Kvno = 1
 			}
 			if r.Chance(1, 6) {
 				o.ZoneMin = r.PickInt(330, -210, 60, 345, -1)
